@@ -7,7 +7,7 @@ from . import stoglib as SL
 
 ID = "C10"
 CHECKER = "chk_merge"
-THEOREMS = ['C10_strictly_increasing', 'C10_keys_exactly_once', 'C10_value_is_mean', 'C10_between_min_max', 'C10_order_independent_items', 'C10_order_independent_state', 'C10_init_state_aligned', 'C10_order_independent_state_rows', 'C10_merged_grid', 'C10_sort_perm', 'C10_sort_sorted', 'C10_sort_sorted_id', 'C10_merge_idempotent', 'C10_keys_on_001_grid', 'C10_merged_keys_on_001_grid']
+THEOREMS = ['C10_strictly_increasing', 'C10_keys_exactly_once', 'C10_value_is_mean', 'C10_between_min_max', 'C10_order_independent_items', 'C10_order_independent_state', 'C10_init_state_aligned', 'C10_order_independent_state_rows', 'C10_merged_grid', 'C10_sort_perm', 'C10_sort_sorted', 'C10_sort_sorted_id', 'C10_merge_idempotent', 'C10_keys_on_001_grid', 'C10_merged_keys_on_001_grid', 'C10_merge_add_rows_are_a_permutation', 'C10_merge_add_merge']
 RULE = ("1-6 overlapping datasets with per-dataset crops, scales and Q offsets (multiples of 0.01 such as 0.1, and others), global windows; "
         "merge_data from the implementation's own sq_individuals is one correspondence case; the oracle re-adds the datasets in other orders "
         "(all permutations for <= 4 datasets in the thorough tier) and merges twice; non-trivial = at least two points share a Q; distinct by input hash")
